@@ -191,11 +191,17 @@ class Check:
         todo = list(chunk)
         f = path
         crashes = 0
+        server_retried = False
         while todo:
             prog = f + '.progress'
             e = dict(env or {})
             e['VERIF_PROGRESS'] = prog
             r = self.run_harness(binary, args + ['-in', f], timeout=timeout, env=e, allow_crash=True)
+            if '_crash' not in r and not server_retried and r.get('inconclusive') and all(str(x).startswith('server:') for x in r['inconclusive']) and not r.get('violations'):
+                # the in-process server did not come up (loaded machine, a port taken meanwhile): nothing was replayed
+                # yet, the chunk is run once more in a fresh process
+                server_retried = True
+                continue
             if '_crash' not in r:
                 results.append(r)
                 break
